@@ -45,11 +45,12 @@ ASSUMPTIONS = ['astropy SkyCoord/Quantity construction, unit conversion and to_s
 SHAPES = ['circle', 'ellipse', 'rectangle', 'polygon', 'circleannulus', 'ellipseannulus', 'rectangleannulus', 'line', 'point', 'text']
 FRAMES = ['image', 'icrs', 'fk5', 'fk4', 'galactic', 'ecliptic']
 ASTROPY_FRAME = {'icrs': 'icrs', 'fk5': 'fk5', 'fk4': 'fk4', 'galactic': 'galactic', 'ecliptic': 'barycentricmeanecliptic'}
-SKY_POS = [(10.5, 0.0), (187.70593, 12.391123), (0.001, -85.5), (359.999, 45.0)]
-PIX_POS = [(1.5, -3.25), (4096.125, 0.0), (0.0, 1.5), (-3.25, 4096.125)]
-SKY_SIZES = [(3.0, 'arcmin'), (0.5, 'arcsec'), (2.5, 'deg'), (0.01, 'rad')]
-PIX_SIZES = [7.5, 0.125, 1.0, 1000.0]
-ANGLES = [30.0, 123.456, 0.0, -60.0]
+# values with long decimal expansions so that every precision 1..12 really rounds something
+SKY_POS = [(10.5, 0.0), (187.705931234567, 12.391123456789), (0.001, -85.5), (359.999, 45.000000000049)]
+PIX_POS = [(1.5, -3.25), (4096.123456789012, 0.000123456789), (0.0, 1.5), (-3.254999999999, 4096.125)]
+SKY_SIZES = [(3.123456789012, 'arcmin'), (0.5, 'arcsec'), (2.5, 'deg'), (0.01, 'rad')]
+PIX_SIZES = [7.123456789012, 0.125, 1.0, 1000.0]
+ANGLES = [30.0, 123.456789012345, 0.0, -60.0]
 DEG = {'arcsec': 1 / 3600.0, 'arcmin': 1 / 60.0, 'deg': 1.0, 'rad': 180.0 / math.pi}
 
 
@@ -557,7 +558,7 @@ def check_seeds(res):
 # ------------------------------------------------------------------ driver --
 def geom_cases(tier):
     if tier == 'quick':
-        precs, poss, sizes, angles = [1, 3, 8, 12], [0, 1], [0, 1], [30.0, -60.0]
+        precs, poss, sizes, angles = [1, 3, 8, 10, 12], [0, 1], [0, 1], [30.0, 123.456789012345]
     else:
         precs, poss, sizes, angles = list(range(1, 13)), [0, 1, 2, 3], [0, 1, 2, 3], ANGLES
     out = []
